@@ -75,9 +75,13 @@ def judge(case, real, extra, cache):
     if (real["hand"] == "1" and len(starts) == 1 and isinstance(starts[0][1], str)
             and (starts[0][1].startswith("1") or starts[0][1].startswith("204") or starts[0][1].startswith("304"))):
         out.append(("file wrapper handed over to the channel after a 1xx/204/304 status", "closed by the task", "handed over", None))
-    # traceback exposure
-    if T.TB_MARK.encode() in wire and not case["cfg"]["expose"]:
-        out.append(("traceback text on the wire without expose_tracebacks", "absent", "present", None))
+    # traceback exposure (the traceback text is a generated input: the marker, or any text of >= 4 characters)
+    tbtext = case["cfg"]["tb"]
+    if not case["cfg"]["expose"]:
+        if T.TB_MARK.encode() in wire or (len(tbtext) >= 4 and tbtext.encode("utf-8", "replace") in wire
+                                          and tbtext not in "The server encountered an unexpected internal server error"
+                                          and tbtext not in "(generated by " + (case["cfg"]["ident"] or "server") + ")"):
+            out.append(("traceback text on the wire without expose_tracebacks", "absent", "present", None))
     if case["req"]["err"] is not None:
         if real["esc"] != "none":
             out.append(("exception escaped service()", "none", real["esc"], None))
@@ -97,6 +101,23 @@ def judge(case, real, extra, cache):
     if writes_then == 0:
         # fault before any output: one complete 500, then close
         want = reference_500(case, cache)
+        # ... and independently of any run of the server: exactly one complete 500 whose body is
+        # Error.to_response's text for THIS traceback text / ident, whatever characters they contain
+        # ('%', '{}', CR/LF, NUL, non-latin-1 ...), Content-Length = its UTF-8 length
+        if case["disc"] is None:
+            ebody = T.expected_error_body(case)
+            version = case["req"]["version"] if case["req"]["version"] in ("1.0", "1.1") else "1.0"
+            i = wire.find(b"\r\n\r\n")
+            head_b, body_b = (wire[:i + 4], wire[i + 4:]) if i >= 0 else (wire, b"")
+            if not wire.startswith(("HTTP/%s 500 Internal Server Error\r\n" % version).encode()):
+                out.append(("failure before any output: no 500 status line", "HTTP/%s 500 Internal Server Error" % version,
+                            repr(wire[:60]), None))
+            elif ("\r\nContent-Length: %d\r\n" % len(ebody)).encode() not in head_b:
+                out.append(("failure before any output: the 500 does not announce the length of Error.to_response's body",
+                            "Content-Length: %d" % len(ebody), repr(head_b[:200]), None))
+            elif body_b != (b"" if case["req"]["head"] else ebody):
+                out.append(("failure before any output: the 500's body is not Error.to_response's text",
+                            repr(ebody[:80]), repr(body_b[:80]), None))
         if case["req"]["head"]:
             # the 500 to a HEAD request is the head of that 500, Content-Length included, without
             # the body (fix 52947ac: the ladder's err_request inherits the command)
